@@ -58,6 +58,15 @@ contract(CLS + "r_object", params={"self": Unmarshaller(), "bytes_for_s": Bool()
          ensures=dispatch_post, no_native_replay=True)
 
 
+# at end of file r_object must raise (the container loops of C10's readers have no other exit on a truncated or
+# hostile stream: C11's termination rests on it); returning a value there is refuted
+contract(CLS + "r_object", name=CLS + "r_object/at-eof", params={"self": Unmarshaller(), "bytes_for_s": Bool()}, configs={"": {"_magic": 3413}},
+         when=lambda self: False,
+         requires=lambda self: self.fp.pos == Len(self.fp.data),
+         raises={TypeError: lambda self: True},
+         ensures=lambda self: [("at end of file r_object raises instead of returning an object", False)], no_native_replay=True)
+
+
 # ------------------------------------------------------------------------------------------------
 # t_code: order, width and signedness of the fields of a marshalled code object, per bytecode version
 class CodeChild(Maker):
